@@ -328,6 +328,11 @@ class Inliner:
         n_stmts = sum(1 for st in body for _ in ast.walk(st) if isinstance(_, ast.stmt))
         if n_stmts > MAX_BODY or _contains(d, (ast.Global, ast.Nonlocal)):
             return False
+        # a default that is not a constant / name is evaluated ONCE at definition time (a mutable default is shared by all calls):
+        # copying it to every call site would change what the program does
+        for dv in [*a.defaults, *[x for x in a.kw_defaults if x is not None]]:
+            if not isinstance(dv, (ast.Constant, ast.Name, ast.Attribute, ast.Lambda)) and not (isinstance(dv, ast.Tuple) and not dv.elts) and not (isinstance(dv, ast.UnaryOp) and isinstance(dv.operand, ast.Constant)):
+                return False
         return True
 
     # ------------------------------------------------------------------ instantiation
